@@ -41,7 +41,8 @@ CONSTANTS Mods,        \* module names
           Errnos,      \* errno values a callback may leave behind (SetErrno)
           TbVals,      \* <<rate, burst>> pairs offered to m_mod_set_tokenbucket (rate 0 = remove the limit)
           TickVals,    \* values offered to m_ctx_set_tick (0 = off, else a period id)
-          Targets,     \* modules on which subscribe / batch / stash / become / state setters are offered in this configuration
+          Targets,     \* modules on which batch / stash / become / state setters / source calls are offered in this configuration
+          SubTargets,  \* modules on which subscribe / unsubscribe are offered
           AutoVals,    \* auto-free flag values offered to the send calls
           SubOneshot,  \* one-shot flag values offered to subscribe
           Senders,     \* modules that issue tell / publish / broadcast / pill in this configuration
@@ -60,8 +61,9 @@ EAGAIN == -11
 EPERMC == -13          \* a permission error (EPERM or EACCES)
 NoMod == ""
 SysTopics == {"CTX_STARTED", "CTX_STOPPED", "MOD_STARTED", "MOD_STOPPED"}
-\* subscription pattern p matches topic t (literal equality, or the one regular expression "t." matching every user topic)
-Matches(p, t) == p = t \/ (p = "t." /\ t \in Topics)
+\* subscription pattern p matches topic t (literal equality, the regular expression "t." matching every user topic, or the
+\* regular expression "MOD_ST." matching the two module notifications)
+Matches(p, t) == p = t \/ (p = "t." /\ t \in Topics) \/ (p = "MOD_ST." /\ t \in {"MOD_STARTED", "MOD_STOPPED"})
 
 Fr(k, m, a, b) == [k |-> k, m |-> m, a |-> a, b |-> b, ev |-> <<>>, h |-> 0, sm |-> {}]
 Push(s, f) == [s EXCEPT !.stack = <<f>> \o s.stack]
@@ -497,12 +499,12 @@ Pill(m, r) ==
 
 \* a repeated subscription is updated in place (one subscription per pattern)
 Subscribe(m, q, pr, os) ==
-    /\ Can("Subscribe") /\ m \in Targets /\ Handle(m) /\ q \in Pats /\ pr \in Prios /\ os \in SubOneshot
+    /\ Can("Subscribe") /\ m \in SubTargets /\ Handle(m) /\ q \in Pats /\ pr \in Prios /\ os \in SubOneshot
     /\ IF SubRefused(m) THEN Refuse(NEG)
        ELSE Rated(m, [S EXCEPT !.mod[m].subs = {x \in @ : x.pat # q} \cup {[pat |-> q, pr |-> pr, os |-> os]}, !.ret = 0])
 
 Unsubscribe(m, q) ==
-    /\ Can("Unsubscribe") /\ m \in Targets /\ Handle(m) /\ q \in Pats
+    /\ Can("Unsubscribe") /\ m \in SubTargets /\ Handle(m) /\ q \in Pats
     /\ IF SubRefused(m) THEN Refuse(NEG)
        ELSE IF q \notin SubPats(S, m) THEN Rated(m, Ret(S, NEG))                  \* (the token is taken before the lookup)
        ELSE Rated(m, [S EXCEPT !.mod[m].subs = {x \in @ : x.pat # q}, !.ret = 0])
